@@ -12,7 +12,7 @@ def main():
     checks, na = [], []
     for cid in ALL:
         path = os.path.join(VERIF, "harness", "props", cid.lower() + ".py")
-        if not os.path.exists(path):
+        if not os.path.exists(path) or not os.path.exists(os.path.join(VERIF, "coq", "Props", cid + ".v")):
             na.append(dict(property_id=cid, reason=PENDING))
             continue
         mod = importlib.import_module(f"harness.props.{cid.lower()}")
